@@ -253,6 +253,10 @@ def _sign_knowledge(cond):
       res = True
     elif k == z3.Z3_OP_LT and syntactically_nonneg(a):
       res = False
+    elif k in (z3.Z3_OP_GT,) and known_pos(a):
+      res = True
+    elif k in (z3.Z3_OP_LE, z3.Z3_OP_EQ) and known_pos(a):
+      res = False
   elif _num_value(a) == 0:
     if k == z3.Z3_OP_LE and syntactically_nonneg(b):
       res = True
@@ -677,7 +681,7 @@ def divide(a, b):
   tb = term_of(b, True)
   ta = term_of(a, True)
   if not _concrete(b):
-    if ex().branch(tb == 0):
+    if not known_pos(tb) and ex().branch(tb == 0):
       ex().warnings.append(('div0', str(tb)[:80]))
       if _concrete(a):
         if a == 0:
@@ -704,6 +708,27 @@ def _memo(kind, t, make):
   if key not in e.cache:
     e.cache[key] = (t, make())     # keep t alive so that ids are not reused
   return e.cache[key][1]
+
+
+def mark_pos(t):
+  """registers a term proven (or assumed) strictly positive on this path, keyed by canonical form"""
+  if EX is not None and EX.active:
+    c = canon(t)
+    EX.cache[('pos', c.get_id())] = (c, True)
+    EX.cache[('nonneg', c.get_id())] = (c, True)
+    EX.cache[('nonneg', t.get_id())] = (t, True)
+
+
+def known_pos(t):
+  if EX is None or not EX.active:
+    return False
+  if ('pos', t.get_id()) in EX.cache:
+    return True
+  try:
+    c = canon(t)
+  except z3.Z3Exception:
+    return False
+  return ('pos', c.get_id()) in EX.cache
 
 
 def mark_nonneg(t):
@@ -770,7 +795,7 @@ def sym_sqrt(x):
   root = _perfect_square_root(t)
   if root is not None:
     return Sym(z3.If(root >= 0, root, -root))      # sqrt(c^2 * x^2) = |c x| exactly (keeps the query linear)
-  if not nonneg and not syntactically_nonneg(t):
+  if not nonneg and not syntactically_nonneg(t) and not known_pos(t) and not _ratio_of_pos(raw):
     if e.branch(t < 0):
       e.warnings.append(('sqrt_neg', str(t)[:80]))
       return NAN
@@ -806,6 +831,13 @@ def _perfect_square_root(t):
   if rn * rn != n or rd * rd != d:
     return None
   return real_val(Fraction(rn, rd)) * base
+
+
+def _ratio_of_pos(t):
+  """t = a / b with a, b both known positive"""
+  if z3.is_app(t) and t.decl().kind() == z3.Z3_OP_DIV and t.num_args() == 2:
+    return known_pos(t.arg(0)) and known_pos(t.arg(1))
+  return False
 
 
 def square_of(x):
